@@ -52,10 +52,13 @@ let () = iter_lines (fun line ->
     let capo = if cap = "D" then None else Some (z_of_int (int_of_string cap)) in
     let s0 = ref (init capo (mode <> "X") progs) in
     (* prefill: thread 0 alone *)
-    let continue_ = ref true in
+    let continue_ = ref true and presteps = ref 0 in
     while !continue_ do
-      match step hash !s0 O with Some s' -> s0 := s' | None -> continue_ := false
+      incr presteps;
+      if !presteps > 100000 then continue_ := false   (* a prefill that spins for ever (broken formulas) *)
+      else match step hash !s0 O with Some s' -> s0 := s' | None -> continue_ := false
     done;
+    if !presteps > 100000 then Printf.printf "%s states=0 trans=0 trunc=false stuck=1 outcomes=PREFILL-NEVER-FINISHES\n" id else begin
     (* after the prefill the tables are re-based on arrays (same functions, O(1) reads): only speed *)
     let compact (t : ctab) : ctab =
       let n = int_of_z (cbcount t) + 16 in
@@ -107,5 +110,5 @@ let () = iter_lines (fun line ->
     done;
     let l = List.sort compare (Hashtbl.fold (fun k () acc -> k :: acc) outs []) in
     Printf.printf "%s states=%d trans=%d trunc=%b stuck=%d outcomes=%s\n" id (KH.length seen) !ntrans !trunc !stuck
-      (String.concat ";" l)
+      (String.concat ";" l) end
   | _ -> ())
